@@ -21,7 +21,7 @@ RULE = ('bodies: random bytes; grammar-mutated multipart (truncation at every of
         'chunked valid and malformed) x max_memfile_size x accessor {forms, files, POST, params, json, body}. Non-trivial = the body is not a '
         'well-formed instance of its content type; distinct = distinct (content type, body, framing, accessor, buffer).')
 PYOPT = {'quick': 1, 'thorough': 1}     # one unit of every kind is also served by an interpreter started with -O (assert statements compiled out)
-REQUIRED = ['units_run_under_python_-O', 'requests_with_max_body_size', 'malformed_content_length_header', 'cpu_budget_requests', 'requests', 'status_2xx', 'status_4xx', 'multipart_mutations', 'truncations', 'json_bodies', 'urlencoded_bodies', 'random_bytes_bodies',
+REQUIRED = ['units_run_under_python_-O', 'request_class_used_directly', 'requests_with_max_body_size', 'malformed_content_length_header', 'cpu_budget_requests', 'requests', 'status_2xx', 'status_4xx', 'multipart_mutations', 'truncations', 'json_bodies', 'urlencoded_bodies', 'random_bytes_bodies',
             'chunked_malformed_framing', 'delivered_fields_checked', 'step_budget_armed', 'accessor_forms', 'accessor_files', 'accessor_json',
             'accessor_body', 'accessor_POST', 'header_mutations', 'content_type_mutations']
 ASSUMPTIONS = ['a statement that never returns from C code (regular-expression engine) is invisible to LINE events: pathological header shapes are served in a child under RLIMIT_CPU = 40 CPU seconds (measured need < 2); CPU time, not wall-clock',
@@ -309,6 +309,11 @@ def do_request(ctx, sc, apps, rng, body, ctype, framing, acc, B_mem, mclass, bou
         ctx.count('chunked_malformed_framing')
         sent = None
     budget = 60000 + 600 * len(body)
+    if mclass != 'replay-direct' and (len(body) + len(acc) + B_mem) % 5 == 0 and acc != 'all' or mclass == 'replay-direct':
+        # the request class used on its own (no application around it): the same bytes, the same accessors;
+        # what is not a success must be one of the framework's request errors (or an HTTP client error), nothing else
+        direct_request(ctx, sc, env, body, ctype, framing, acc, B_mem, max_body, mclass, budget)
+        return
     sc.arm(budget)
     ctx.count('step_budget_armed')
     try:
@@ -356,6 +361,47 @@ def do_request(ctx, sc, apps, rng, body, ctype, framing, acc, B_mem, mclass, bou
                 if val not in parts:
                     ctx.violation('delivered-field-is-not-a-delimiter-terminated-part', f'{where}: field {name!r} = {val[:80]!r}; terminated parts {sorted(parts)[:6]}', w)
                     return
+
+
+def direct_request(ctx, sc, env, body, ctype, framing, acc, B_mem, max_body, mclass, budget):
+    import ombott
+    from ombott.request_pkg.errors import RequestError
+    w = wit(body, ctype, framing, acc, B_mem, max_body)
+    w['unit']['direct'] = True
+    where = f'[{mclass}, Request used directly] ctype={ctype!r} framing={framing} accessor={acc} memfile={B_mem} max_body_size={max_body} body={body[:120]!r}'
+    ctx.count('request_class_used_directly')
+    sc.arm(budget)
+    try:
+        rq = ombott.Request(env, config={'max_memfile_size': B_mem, 'max_body_size': max_body})
+        if acc == 'forms':
+            dict(rq.forms)
+        elif acc == 'files':
+            dict(rq.files)
+        elif acc == 'POST':
+            dict(rq.POST)
+        elif acc == 'params':
+            dict(rq.params)
+        elif acc == 'json':
+            rq.json
+        else:
+            rq.body.read()
+        sc.disarm()
+        ctx.count('direct_success')
+    except BudgetExceeded:
+        sc.disarm()
+        ctx.violation('step-budget-exceeded', f'{where}: more than {budget} line events', w)
+    except RequestError:
+        sc.disarm()
+        ctx.count('direct_request_error')
+    except ombott.HTTPError as e:
+        sc.disarm()
+        if 400 <= e.status_code < 500:
+            ctx.count('direct_http_client_error')
+        else:
+            ctx.violation(f'request-used-directly-raises-HTTPError-{e.status_code}', f'{where}: {e!r}', w)
+    except Exception as e:  # noqa
+        sc.disarm()
+        ctx.violation(f'request-used-directly-raises-{type(e).__name__}', f'{where}: {e!r}', w)
 
 
 def wit(body, ctype, framing, acc, B_mem, max_body=None):
@@ -572,6 +618,7 @@ def run_unit(ctx, unit):
         sc = StepCounter().install()
         try:
             bnd = B.encode() if unit['ctype'] and B in unit['ctype'] and unit['ctype'].lower().startswith('multipart/form-data') else None
-            do_request(ctx, sc, {}, ctx.rng, unit['body'].encode('latin1'), unit['ctype'], unit['framing'], unit['acc'], unit['B'], 'replay', boundary=bnd, max_body=unit.get('max_body'))
+            do_request(ctx, sc, {}, ctx.rng, unit['body'].encode('latin1'), unit['ctype'], unit['framing'], unit['acc'], unit['B'],
+                       'replay-direct' if unit.get('direct') else 'replay', boundary=bnd, max_body=unit.get('max_body'))
         finally:
             sc.uninstall()
